@@ -36,6 +36,8 @@ thread_local! {
     /// corrupting the heap: (base pointer, total size, alignment of the inner layout)
     static QUARANTINE: [Cell<(usize, usize, usize)>; QUARANTINE_SLOTS] = const { [const { Cell::new((0, 0, 0)) }; QUARANTINE_SLOTS] };
     static QUARANTINE_NEXT: Cell<usize> = const { Cell::new(0) };
+    /// switched off when an execution thread winds up (see `drain_quarantine`)
+    static QUARANTINE_OFF: Cell<bool> = const { Cell::new(false) };
 }
 
 const QUARANTINE_SLOTS: usize = 2048;
@@ -112,7 +114,7 @@ unsafe impl GlobalAlloc for Monitor {
         });
         let pre = prefix(align);
         let total = size + pre;
-        if total <= QUARANTINE_MAX_BLOCK {
+        if total <= QUARANTINE_MAX_BLOCK && !QUARANTINE_OFF.try_with(|q| q.get()).unwrap_or(true) {
             (*hdr).domain |= FREED_MARK;
             let evicted = QUARANTINE_NEXT.try_with(|n| {
                 let i = n.get();
@@ -135,6 +137,21 @@ unsafe impl GlobalAlloc for Monitor {
         let inner = Layout::from_size_align_unchecked(total, pre);
         System.dealloc(ptr.sub(pre), inner);
     }
+}
+
+/// Returns every block this thread holds in quarantine to the system and switches the quarantine
+/// off for the rest of the thread's life (called when an execution thread winds up: its
+/// thread-local slots have no destructor).
+pub fn drain_quarantine() {
+    QUARANTINE_OFF.with(|q| q.set(true));
+    QUARANTINE.with(|q| {
+        for slot in q.iter() {
+            let (base, t, a) = slot.replace((0, 0, 0));
+            if base != 0 {
+                unsafe { System.dealloc(base as *mut u8, Layout::from_size_align_unchecked(t, a)) };
+            }
+        }
+    });
 }
 
 /// Sets the accounting domain for allocations made on this thread; returns the previous one.
